@@ -359,7 +359,13 @@ def getitem_wrapper(case):
     H, W = sint("H"), sint("W")
     requires(And(H >= 0, W >= 0))
     arr = OBJ(A, case.cls, shape=(H, W), data=slist("d", "ref", H * W))
-    ghost("sref_classes", set())
+
+    def _element_class(v, cls):
+        # an element of an array is an expression (or literal), never itself an array; its expression class is unknown
+        if getattr(cls, "name", "").startswith(("Array", "BoolArray", "IntArray")):
+            return False
+        raise OutOfSubset("the code inspects the class of an array element (%s)" % getattr(cls, "name", cls))
+    ghost("sref_isinstance", _element_class)
     n, a, b = sint("n"), sint("a"), sint("b")
     requires(And(n >= 0, a >= 0, b >= 0))
     if case.res == "scalar":
